@@ -696,11 +696,16 @@ class Exec:
             h = s.ext_cache[name] = externs.lookup(s, name)
         return h
     # ------------------------------------------------------------ domain safety (real mode)
-    def domain_div(s, st, b):
+    def in_harness(s, fr):
+        n = fr.fn.name
+        return n.startswith(s.harness_prefix) or n.startswith('__wrap_') or '_GLOBAL__N_' in n or n.startswith('_ZN1H') or n.startswith('_ZL')
+    def domain_div(s, st, fr, b):
+        if s.in_harness(fr): return
+        where = fr.fn.name[:80] + ' ' + fr.block
         if isinstance(b[1], float):
-            if b[1] == 0.0: s.domain_issues.append(('fdiv by constant zero', None, st))
+            if b[1] == 0.0: s.domain_issues.append(('fdiv by constant zero in ' + where, None, st))
             return
         r, m = s.check(st, [s.fz(b) == 0])
-        if r == z3.sat: s.domain_issues.append(('fdiv: divisor can be zero', s.full_model(st, [s.fz(b) == 0]) or m[0], st.clone()))
+        if r == z3.sat: s.domain_issues.append(('fdiv: divisor can be zero in ' + where, s.full_model(st, [s.fz(b) == 0]) or m[0], st.clone()))
 
 EXTERN_FIRST = set()
